@@ -18,7 +18,7 @@ IDENTS = ['x', 'y', 'data', 'lambda', 'value', 'a_set_b', 'name', 't', 'print_',
 METHOD_NAMES = ['run', 'insert', 'print', 'serialize', 'data', 'async', 'await', 'lambda', 'size', 'constant',
                 'at', 'templated', 'svg', 'def', 'update', 'get', 'constructor', 'test']
 TPARAMS = ['T', 'U', 'TT', 'ARG', 'POSE']
-DEFAULTS = ['0', '-1', '3.14', '"hello, world"', "'c'", 'gtsam::Pose3()', 'std::vector<double>{1, 2}', 'f(1, (2))',
+DEFAULTS = ['0', '-1', '3.14', '"hello, world"', '"a  b |   | "', "'c'", 'gtsam::Pose3()', 'std::vector<double>{1, 2}', 'f(1, (2))',
             'ns::K<int, 2>::value', 'nullptr', 'true', '{}']
 
 
@@ -154,6 +154,8 @@ class Gen:
         if r < 0.8 or depth <= 0 or not templated_ok:
             ns = tuple(self.r.sample(NS_POOL, self.r.randint(0, 2)))
             nm = self.pick(CLASS_NAMES + ['This'] if (tparams and self.in_class) else CLASS_NAMES)
+            if nm == 'This' and self.r.random() < 0.4:
+                return T(self.pick(['Mode', 'Status']), ('This',), (), const, mark)
             return T(nm, (ns if self.r.random() < 0.7 else ()) if nm != 'This' else (), (), const, mark)
         ns = tuple(self.r.sample(NS_POOL, self.r.randint(0, 1)))
         n = self.r.randint(1, 2)
@@ -490,8 +492,6 @@ def sanitize(module):
                 elif m[0] == 'prop':
                     ms.append(('prop', ren_type(m[1], cparams), m[2], m[3]))
                 elif m[0] == 'op':
-                    if m[2] == '==':
-                        continue
                     ms.append(m)
                 else:
                     ms.append(m)
